@@ -1,8 +1,9 @@
 (* Chk_C18.v — case type and checker for C18 (interpreter-global state restored). *)
-From ZT Require Import Base Restore.
+From ZT Require Import Base Restore RestorePhases.
 
 Record case := {
   feats : list (list (nat * nat));   (* active features in set-up order: (field, installed value code) *)
+  feats3 : list feature3;            (* the same writes with the phase in which each is made and undone (RestorePhases.run3) *)
   g_before : gstate;                 (* observed before Runner.run() *)
   g_probe : option gstate;           (* observed by a test body during the test phase, when one ran *)
   probe_fields : list nat;           (* fields whose in-phase value the model predicts *)
@@ -18,5 +19,9 @@ Definition same_on (fs : list nat) (a b : gstate) : bool := forallb (fun f => Na
 Definition check (c : case) : nat :=
   bit (negb (match g_probe c with Some p => same_on (probe_fields c) (during c) p | None => true end
              && same_on (all_fields c)
-                  (with_features (map (fun ws => {| f_writes := ws |}) (feats c)) (fun g => g) (g_before c)) (g_after c))) 1
+                  (with_features (map (fun ws => {| f_writes := ws |}) (feats c)) (fun g => g) (g_before c)) (g_after c)
+             && match g_probe c with Some p => same_on (probe_fields c) (during3 (feats3 c) (g_before c)) p | None => true end
+             && same_on (all_fields c) (run3 (feats3 c) (fun g => g) (g_before c)) (g_after c)
+             && list_eqb (list_eqb (fun a b => Nat.eqb (fst a) (fst b) && Nat.eqb (snd a) (snd b))) (feats c) (map wpairs (feats3 c)))) 1
+  + bit (negb (disjoint_writes (feats3 c))) 4
   + bit (negb (same_on (all_fields c) (g_before c) (g_after c))) 2.
